@@ -675,6 +675,12 @@ func (e *Engine) invokeMethod(st *State, recv Value, m *types.Func, args []Value
 		}
 		unsup("invoke %s on %s", m.Name(), describe(recv))
 	}
+	if _, isStub := iv.V.(stubObj); isStub {
+		// object handed out by an empty-bodied package (metrics, tracing): its methods do nothing
+		e.res.Intrinsics["<empty body> method "+m.Name()+" on stub"]++
+		ret(st, stubResults(m.Type().(*types.Signature)))
+		return true
+	}
 	if iv.T == nil {
 		where := ""
 		if site != nil {
@@ -711,6 +717,11 @@ func (e *Engine) invoke(st *State, fv FuncVal, args []Value, site ssa.Instructio
 	if fn.Pkg != nil && fn.Pkg.Pkg.Path() == e.vpPkg {
 		return e.vpCall(st, fn.Name(), args, site, ret)
 	}
+	if fn.Name() == "init" && fn.Synthetic != "" && fn.Pkg != nil && !e.initAllowed(fn.Pkg.Pkg.Path()) {
+		// initialiser of a package that is not on the init list: skipped (its globals stay unallocated)
+		ret(st, nil)
+		return true
+	}
 	if h, ok := intrinsics[name]; ok {
 		e.res.Intrinsics[name]++
 		return h(e, st, &callCtx{args: args, site: site, ret: ret, fn: fn})
@@ -727,7 +738,7 @@ func (e *Engine) invoke(st *State, fv FuncVal, args []Value, site ssa.Instructio
 	}
 	if isEmptyBodyPkg(fn) {
 		e.res.Intrinsics["<empty body> "+name]++
-		ret(st, zeroResults(fn))
+		ret(st, stubResults(fn.Signature))
 		return true
 	}
 	e.res.Funcs[name]++
@@ -760,6 +771,31 @@ func frameDepth(f *Frame) int {
 		n++
 	}
 	return n
+}
+
+// stubObj is the value behind interfaces returned by empty-bodied packages
+type stubObj struct{}
+
+func stubValue(t types.Type) Value {
+	if _, ok := t.Underlying().(*types.Interface); ok {
+		return IfaceVal{T: types.Typ[types.UnsafePointer], V: stubObj{}}
+	}
+	return zeroValue(t)
+}
+
+func stubResults(sig *types.Signature) Value {
+	res := sig.Results()
+	switch res.Len() {
+	case 0:
+		return nil
+	case 1:
+		return stubValue(res.At(0).Type())
+	}
+	t := make(TupleVal, res.Len())
+	for i := range t {
+		t[i] = stubValue(res.At(i).Type())
+	}
+	return t
 }
 
 // packages whose functions are given empty bodies (logging, metrics, tracing)
